@@ -28,6 +28,8 @@ import (
 	"pgregory.net/rapid"
 
 	"github.com/evanoberholster/imagemeta/exif2/ifds"
+	"github.com/evanoberholster/imagemeta/exif2/ifds/exififd"
+	"github.com/evanoberholster/imagemeta/exif2/ifds/gpsifd"
 	"github.com/evanoberholster/imagemeta/exif2/ifds/mknote/apple"
 	mkcanon "github.com/evanoberholster/imagemeta/exif2/ifds/mknote/canon"
 	"github.com/evanoberholster/imagemeta/exif2/ifds/mknote/nikon"
@@ -375,6 +377,39 @@ func expBiasText(v int16) string {
 	return s + strconv.Itoa(int(v>>8)) + "/" + strconv.Itoa(int(uint16(v)&0xff))
 }
 
+var directLookups = map[string]struct {
+	it int
+	f  func(tag.ID) string
+}{"ifds.TagString": {int(ifds.IFD0), ifds.TagString}, "exififd.TagString": {int(ifds.ExifIFD), exififd.TagString}, "gpsifd.TagString": {int(ifds.GPSIFD), gpsifd.TagString},
+	"canon.TagCanonString": {int(ifds.MkNoteCanonIFD), mkcanon.TagCanonString}, "nikon.TagNikonString": {int(ifds.MkNoteNikonIFD), nikon.TagNikonString},
+	"apple.TagAppleString": {int(ifds.MkNoteAppleIFD), apple.TagAppleString}, "sony.TagSonyString": {int(ifds.MkNoteSonyIFD), sony.TagSonyString}}
+
+// evalDirect calls one of the exported lookups behind TagName directly (value = id, for TagSubIfdString ifdType<<16 | id).
+func evalDirect(name string, value int64) (fail *pbt.Fail) {
+	id := tag.ID(value & 0xffff)
+	defer func() {
+		if r := recover(); r != nil {
+			fail = pbt.Failf("panic:"+name, "%s on value 0x%x panicked: %v", name, value, r)
+		}
+	}()
+	if name == "TagSubIfdString" {
+		it := ifds.IfdType(value >> 16)
+		got := ifds.TagSubIfdString(id, it)
+		if it >= ifds.SubIfd0 && it <= ifds.SubIfd7 && got != it.TagName(id) {
+			return pbt.Failf("direct:TagSubIfdString", "TagSubIfdString(0x%04x, %d) = %q, TagName gives %q", id, it, got, it.TagName(id))
+		}
+		return nil
+	}
+	d, ok := directLookups[name]
+	if !ok {
+		return pbt.Failf("", "unknown lookup %q", name)
+	}
+	if got, want := d.f(id), ifds.IfdType(d.it).TagName(id); got != want {
+		return pbt.Failf("direct:"+name, "%s(0x%04x) = %q, IfdType(%d).TagName gives %q", name, id, got, d.it, want)
+	}
+	return nil
+}
+
 func evalTagName(it int, id int) *pbt.Fail {
 	var got string
 	var pan string
@@ -467,6 +502,8 @@ func eval(c Case) *pbt.Fail {
 	switch {
 	case c.Parse != "":
 		return evalParse(c.Parse, c.Text)
+	case strings.HasPrefix(c.Enum, "direct:"):
+		return evalDirect(strings.TrimPrefix(c.Enum, "direct:"), c.Value)
 	case c.Enum == "TagName":
 		return evalTagName(int(c.Value>>16), int(c.Value&0xffff))
 	default:
@@ -595,6 +632,30 @@ func TestProp(t *testing.T) {
 		}
 		rec.Eval(trivial)
 		rec.Class("TagName", trivial)
+	}
+	// the exported lookups behind TagName, called directly: every one of them over all 2^16 ids (must return, and agree with
+	// the dispatching method), and TagSubIfdString also with every one of the 256 directory types (a caller may hand it any)
+	if rec.Env.Shard == 0 {
+		var n int64
+		for name := range directLookups {
+			for id := 0; id < 65536; id++ {
+				n++
+				if f := evalDirect(name, int64(id)); f != nil && report(Case{Enum: "direct:" + name, Value: int64(id)}, f) {
+					break
+				}
+			}
+		}
+		for it := 0; it < 256; it++ {
+			for _, id := range []int{0, 1, 0x00fe, 0x0100, 0x0111, 0x0117, 0x0201, 0x0202, 0x8769, 0xffff} {
+				n++
+				v := int64(it)<<16 | int64(id)
+				if f := evalDirect("TagSubIfdString", v); f != nil && report(Case{Enum: "direct:TagSubIfdString", Value: v}, f) {
+					break
+				}
+			}
+		}
+		rec.Eval(n)
+		rec.Class("direct-tag-lookups", n)
 	}
 	// tag names again with the id in the outer loop and the directory types in ascending, then descending order: a lookup must
 	// not depend on which directory type was asked about the same id just before (every id that has a name anywhere, +-1)
